@@ -297,3 +297,105 @@ pub fn ref_tree_from_bases<T: Scalar>(
         );
     }
 }
+
+/// Long histories: every cycle over `alpha` of period <= `period`, extended to `len` updates, the
+/// oracle evaluated at every step. Catches behaviour keyed on the number of updates or evictions
+/// (periodic re-synchronisation, compaction, counters) that no short TREE reaches.
+pub fn ref_long_cycles<T: Scalar>(property: &str, spec: &Spec, alpha: &[f64], period: usize, len: usize, st: &mut Stats, sink: &Sink, oracle: &Oracle<T>) {
+    st.configs += 1;
+    for cyc in crate::explore::cycles(alpha, period) {
+        T::reset_arena();
+        let c0 = T::inexact();
+        let Some(v) = build_or_report::<T>(property, spec, sink) else { return };
+        let mut s = RefState { v, tainted: T::inexact() > c0 };
+        let hist: Vec<f64> = (0..len).map(|i| cyc[i % cyc.len()]).collect();
+        let mut bad = false;
+        for i in 0..len {
+            match crate::explore::guard(|| eval_node(property, spec, &mut s, &hist[..=i], st, oracle, sink)) {
+                Ok(Step::Go) => {}
+                Ok(Step::Prune) => {
+                    bad = true;
+                    break;
+                }
+                Err(m) => {
+                    sink.push(panic_violation(property, spec, T::NAME, &hist[..=i], m));
+                    bad = true;
+                    break;
+                }
+            }
+        }
+        st.states += len as u64;
+        st.traces += 1;
+        if bad {
+            return;
+        }
+    }
+}
+
+/// Structured histories: every sequence of up to `max_phases` phases from a menu of eight, each
+/// phase sized to the window (N+1 values) and continuing from the last value of the previous one:
+/// two plateaus, strictly rising / falling ramps, a zig-zag, a spike and return, a staircase with
+/// ties, a sign flip. They reach states that need 2N..4N particular values (a plateau that slides
+/// out under a ramp, an extremum evicted while a tie enters, ...) for any window length.
+pub fn phase_drivers(n: usize, max_phases: usize) -> Vec<Vec<f64>> {
+    let l = n + 1;
+    let phase = |k: usize, last: f64| -> Vec<f64> {
+        match k {
+            0 => vec![0.0; l],
+            1 => vec![1.0; l],
+            2 => (1..=l).map(|i| last + i as f64).collect(),
+            3 => (1..=l).map(|i| last - i as f64).collect(),
+            4 => (0..l).map(|i| last + if i % 2 == 0 { 1.0 } else { -1.0 }).collect(),
+            5 => vec![last + 100.0, last],
+            6 => (0..l).map(|i| last + (i / 2) as f64).collect(),
+            _ => vec![-last, -last + 0.5],
+        }
+    };
+    let mut out: Vec<Vec<f64>> = vec![];
+    let mut frontier: Vec<Vec<f64>> = vec![vec![]];
+    for _ in 0..max_phases {
+        let mut next = vec![];
+        for h in &frontier {
+            let last = h.last().copied().unwrap_or(0.0);
+            for k in 0..8 {
+                let mut g = h.clone();
+                g.extend(phase(k, last));
+                next.push(g);
+            }
+        }
+        out.extend(next.iter().cloned());
+        frontier = next;
+    }
+    out
+}
+
+/// run the oracle at every step of every driver
+pub fn ref_drivers<T: Scalar>(property: &str, spec: &Spec, drivers: &[Vec<f64>], st: &mut Stats, sink: &Sink, oracle: &Oracle<T>) {
+    st.configs += 1;
+    for hist in drivers {
+        T::reset_arena();
+        let c0 = T::inexact();
+        let Some(v) = build_or_report::<T>(property, spec, sink) else { return };
+        let mut s = RefState { v, tainted: T::inexact() > c0 };
+        let mut bad = false;
+        for i in 0..hist.len() {
+            match crate::explore::guard(|| eval_node(property, spec, &mut s, &hist[..=i], st, oracle, sink)) {
+                Ok(Step::Go) => {}
+                Ok(Step::Prune) => {
+                    bad = true;
+                    break;
+                }
+                Err(m) => {
+                    sink.push(panic_violation(property, spec, T::NAME, &hist[..=i], m));
+                    bad = true;
+                    break;
+                }
+            }
+        }
+        st.states += hist.len() as u64;
+        st.traces += 1;
+        if bad {
+            return;
+        }
+    }
+}
